@@ -42,6 +42,11 @@ def gen(rng, tier):
     for _ in range(220 if quick else 3000):
         ps.append(G.random_pda(rng, rng.randint(1, 4), rng.choice(['a', 'ab', 'ab', '']), rng.choice(['x', 'xy']), rng.choice(['_', 'ε', '']),
                                ntrans=rng.randint(1, 8), kinds=rng.choice([None, ['push', 'pop'], ['push', 'noop', 'pop', 'push'], ['replace', 'push', 'pop']])))
+    # stack symbols of several characters (PDA constructor): different stacks whose concatenated spellings coincide
+    # (['xy'] and ['x', 'y']) are different configurations
+    for _ in range(80 if quick else 1500):
+        ps.append(G.random_pda(rng, rng.randint(1, 3), rng.choice(['a', 'ab']), ['x', 'y', 'xy'], rng.choice(['_', '']),
+                               ntrans=rng.randint(3, 9), kinds=['push', 'pop', 'push', 'pop', 'noop']))
     cases = []
     # a limit ABOVE the default: a chain of 1100 epsilon moves has a closure of 1101 configurations; with the limit set to
     # 1200 the accepting end of the chain must be found, with 1050 the closure is truncated
